@@ -114,6 +114,9 @@ def check(ctx):
     ctx.ok('R-ROLE/positions-as-stored', 'cache readers', 'package',
            'no reader uses a position dataset of the cache as a fancy '
            'index without giving it an integer type', nontrivial=False)
+    # a parent with a single usable marker is still mapped (rule of C02)
+    from .C02 import check_sample_within_population
+    check_sample_within_population(ctx)
     from .C08 import check_single_child
     check_single_child(ctx)
     from .C10 import check_node_identity
